@@ -23,6 +23,10 @@ struct BState {
     turn: Turn,
     done: Vec<bool>,
     site_of: Vec<&'static str>,
+    /// threads that yielded at a "*.wait" site (spinning on a lock another
+    /// thread holds): not picked again before some other thread made progress
+    /// (yielded at an ordinary site or finished)
+    waiting: Vec<bool>,
 }
 
 pub struct Baton {
@@ -67,6 +71,12 @@ pub fn yield_point(site: &'static str) -> bool {
             return false;
         }
         g.site_of[i] = site;
+        if site.ends_with(".wait") {
+            g.waiting[i] = true;
+        } else {
+            // real progress was made: every spinner may retry
+            g.waiting.iter_mut().for_each(|w| *w = false);
+        }
         g.turn = Turn::Controller;
         b.cv.notify_all();
         while g.turn != Turn::Thread(i) && g.turn != Turn::FreeRun {
@@ -107,7 +117,7 @@ pub type Body = Box<dyn FnOnce() + Send + 'static>;
 pub fn run_threads(ctx: &Arc<RunCtx>, schedule: &[u8], max_steps: usize, bodies: Vec<Body>) -> SchedResult {
     let n = bodies.len();
     let baton = Arc::new(Baton {
-        m: Mutex::new(BState { turn: Turn::Controller, done: vec![false; n], site_of: vec!["start"; n] }),
+        m: Mutex::new(BState { turn: Turn::Controller, done: vec![false; n], site_of: vec!["start"; n], waiting: vec![false; n] }),
         cv: Condvar::new(),
     });
     let panics = Arc::new(Mutex::new(Vec::<String>::new()));
@@ -142,6 +152,7 @@ pub fn run_threads(ctx: &Arc<RunCtx>, schedule: &[u8], max_steps: usize, bodies:
                 ME.with(|m| *m.borrow_mut() = None);
                 let mut g = b.m.lock().unwrap();
                 g.done[i] = true;
+                g.waiting.iter_mut().for_each(|w| *w = false);
                 if g.turn != Turn::FreeRun {
                     g.turn = Turn::Controller;
                 }
@@ -159,9 +170,15 @@ pub fn run_threads(ctx: &Arc<RunCtx>, schedule: &[u8], max_steps: usize, bodies:
         while g.turn != Turn::Controller {
             g = baton.cv.wait(g).unwrap();
         }
-        let runnable: Vec<usize> = (0..n).filter(|i| !g.done[*i]).collect();
+        let mut runnable: Vec<usize> = (0..n).filter(|i| !g.done[*i]).collect();
         if runnable.is_empty() {
             break;
+        }
+        // a thread spinning at a "*.wait" site makes no progress until another
+        // thread ran: leave it out while any other thread can run (otherwise a
+        // STAY pick would re-run the spinner forever).
+        if runnable.iter().any(|i| !g.waiting[*i]) {
+            runnable.retain(|i| !g.waiting[*i]);
         }
         if res.steps >= max_steps {
             res.exhausted = true;
